@@ -29,6 +29,7 @@ import (
 	"verifsim/gen/skel"
 	"verifsim/gen/tmpl"
 	"verifsim/harness"
+	"verifsim/stdpkgs"
 
 	"github.com/open2b/scriggo"
 	"github.com/open2b/scriggo/native"
@@ -45,6 +46,7 @@ type source struct {
 	files   map[string][]byte
 	root    string
 	opts    *scriggo.BuildOptions
+	noRun   bool
 	vars    map[string]any
 	pkgs    []string
 }
@@ -153,7 +155,7 @@ func build(src source) (a artefact, panicked bool, pval any, stack string) {
 				d, _ := p.Disassemble(pkg)
 				a.disasm += "== " + pkg + "\n" + string(d)
 			}
-			if src.opts != nil && src.opts.Packages != nil {
+			if src.opts != nil && src.opts.Packages != nil && !src.noRun {
 				var out strings.Builder
 				err := p.Run(&scriggo.RunOptions{Print: func(v any) { fmt.Fprint(&out, v) }})
 				a.run = fmt.Sprintf("%s|%v", out.String(), err)
@@ -296,6 +298,12 @@ func pickSource(r *harness.Run) source {
 	}
 	src := corpus[s.N(len(corpus))]
 	src.opts = &scriggo.BuildOptions{AllowGoStmt: true}
+	if src.program {
+		// The standard library subset the corpus programs import. They are
+		// built and disassembled, never run (they may touch the real system).
+		src.opts.Packages = stdpkgs.Packages
+		src.noRun = true
+	}
 	return src
 }
 
